@@ -21,6 +21,9 @@ GLOB2 = 22
 class Boom(Exception):
     pass
 
+class Quit(BaseException):
+    """raised by RQ: not an Exception (like KeyboardInterrupt / SystemExit) — no `except Exception` catches it"""
+
 class Obj:
     def __init__(self):
         self.a = 0
@@ -47,6 +50,11 @@ def R(k):
     """an operation that raises"""
     LOG.append(("R", k))
     raise Boom(k)
+
+def RQ(k):
+    """an operation that raises something that is not an Exception"""
+    LOG.append(("RQ", k))
+    raise Quit(k)
 
 def C(k):
     """a condition: the next boolean of the script (False when exhausted)"""
@@ -234,6 +242,9 @@ class Gen:
             return ("ann", v, rng.choice(["int", "'@T'", "'@T & @U'"]), self.expr(bound)), bound | {v}
         if kind == "walrus":
             w = rng.choice([x for x in VARS if x != v])
+            if v in bound and rng.random() < 0.35:
+                # the assignment expression is the value of an augmented assignment: v += (w := e)
+                return ("walrus", v, w, self.expr(bound), "aug"), bound | {v, w}
             return ("walrus", v, w, self.expr(bound)), bound | {v, w}
         if kind == "undef":
             return ("assign", [("name", v)], "UNDEF%d + %s" % (rng.randrange(1, 3), self.expr(bound, 2))), bound | {v}
@@ -254,7 +265,7 @@ class Gen:
                 return ("return", "(%s := %s) + %s" % (w, inner, rest), (w, inner, rest)), bound | {w}
             return ("return", self.expr(bound) if rng.random() < 0.85 else None), bound
         if kind == "raise":
-            return ("expr", "R(%d)" % self.nk()), bound
+            return ("expr", "%s(%d)" % ("RQ" if rng.random() < 0.25 else "R", self.nk())), bound
         if kind == "break":
             return ("break",), bound
         if kind == "continue":
@@ -392,6 +403,9 @@ def render(fn, twin=False, subst=None, ann_params=None, decl=None):
                 out.append("%sBL(%r, %s)" % (ind, n, n))
         return out
 
+    if twin:
+        # every call is a call of its own: what an earlier call bound is not a value of this one
+        lines.append("    LATEST.clear()")
     lines += post_bind(params, "    ")
 
     def emit(stmts, ind):
@@ -411,7 +425,10 @@ def render(fn, twin=False, subst=None, ann_params=None, decl=None):
                     inner = "%s(%r, %s, LATEST)" % (subst[1], s[2], inner)
                 if twin:
                     inner = "BL(%r, %s)" % (s[2], inner)
-                lines.append("%s%s = (%s := %s) + 1" % (ind, s[1], s[2], inner))
+                if len(s) > 4 and s[4] == "aug":
+                    lines.append("%s%s += (%s := %s)" % (ind, s[1], s[2], inner))
+                else:
+                    lines.append("%s%s = (%s := %s) + 1" % (ind, s[1], s[2], inner))
                 lines.extend(post_bind([s[1]], ind))
             elif k == "aug":
                 lines.append("%s%s %s= %s" % (ind, target_text(s[1]), s[2], s[3]))
